@@ -304,7 +304,9 @@ func (p *poller) readWriteLoop() {
 										_ = c.closeWithError(err)
 										break
 									}
-									if n < bufLen {
+									// a short read tells that a stream socket is
+									// drained, but nothing about a datagram socket.
+									if n < bufLen && !c.IsUDP() {
 										break
 									}
 								}
